@@ -1,5 +1,5 @@
 """C16 The store directory stays valid; the consistency check is exact."""
-import json, os, subprocess
+import json, os, shutil, subprocess
 import casefam, storefam, fsfam
 import agentfam as af
 from c10 import load_scenario
@@ -44,6 +44,48 @@ def cli_leg(ctx):
                     ctx.violation("C16", "cli-refused-valid-store:%s" % cmd[0], "exit %d: %s" % (r.returncode, r.stdout[-200:]))
                 if not docheck and not valid and cmd[0] == "list" and r.returncode == 3 and "check" in r.stdout:
                     ctx.violation("C16", "cli-checks-although-disabled:%s" % name, r.stdout[-200:])
+    return n
+
+
+def large_dir_leg(ctx):
+    """The DirCheck rules do not depend on the size of the directory: 700 users (more than any batch a directory reader
+    hands out at once), the check passes; then one user at a time gets a second file (positions spread over the
+    directory order) and the check must fail each time; so must it with the only administrator removed."""
+    exe = ctx.build_agent()
+    root = os.path.join(ctx.scratch, "large")
+    base = os.path.join(root, "base")
+    os.makedirs(base, exist_ok=True)
+    import base64
+    good = fsfam.scrypt_record(b"pw").encode()
+    for i in range(700):
+        open(os.path.join(base, "user%03d.user" % i), "wb").write(good)
+    open(os.path.join(base, "boss.admin"), "wb").write(good)
+    cfg = os.path.join(root, "store.yaml")
+    open(cfg, "w").write(fsfam.CFG % (base, base64.b64encode(fsfam.HMAC1).decode()))
+    env = dict(os.environ, WHAWTY_AUTH_STORE_CONFIG=cfg)
+    chk = lambda: subprocess.run([exe, "check"], env=env, stdout=subprocess.PIPE, stderr=subprocess.STDOUT, text=True, timeout=60)
+    r = chk()
+    n = 1
+    if r.returncode != 0:
+        ctx.violation("C16", "large-directory:valid-store-refused", "700 users + 1 administrator: exit %d %s" % (r.returncode, r.stdout[-200:]))
+        return n
+    order = [x[:-5] for x in os.listdir(base) if x.endswith(".user")]
+    for k in list(range(0, len(order), 41)) + [len(order) - 1]:
+        dup = os.path.join(base, order[k] + ".admin")
+        open(dup, "wb").write(good)
+        r = chk()
+        n += 1
+        os.remove(dup)
+        if r.returncode == 0:
+            ctx.violation("C16", "large-directory:two-files-for-one-user-accepted", "%s has .user and .admin among 701 entries (directory "
+                          "position %d): the check passed" % (order[k], k))
+            break
+    os.rename(os.path.join(base, "boss.admin"), os.path.join(base, "boss.user"))
+    r = chk()
+    n += 1
+    if r.returncode == 0:
+        ctx.violation("C16", "large-directory:no-administrator-accepted", "701 users, no administrator: the check passed")
+    shutil.rmtree(root, ignore_errors=True)
     return n
 
 
@@ -98,6 +140,7 @@ def run(ctx):
     tw = [o for o in fsfam.two_writers_model(ctx, thorough) if o["cut"] in ("statA", "done")]
     fsfam.two_writer_runs(ctx, drv, tw, {"torn": "C16", "loser": "C15", "others": "C15", "seq": "C16", "crash": "C16"})
     ctx.coverage["cli_runs"] = cli_leg(ctx)
+    ctx.coverage["large_directory_checks"] = large_dir_leg(ctx)
     # a running agent never switches to a directory that fails the check (SIGHUP with configurations naming a directory without
     # administrator, with a stray file, or whose only administrator's parameter set is no longer configured): Reload.tla
     import reloadfam
